@@ -196,6 +196,17 @@ def shapes(t, sd):
     for order in ("same_first", "other_first", "interleaved"):
         spec = {"cps": [{"name": "p1", "type": U, "bins": base_bins["arr"]}]}
         items.append(dict(spec=spec, other_spec=other, ninst=2, nsamples=2, shape="param shapes %s" % order, create_order=order))
+    # shapes that differ in one coverpoint only (first / last of two, middle of three)
+    cpa = {"name": "p1", "type": ["u", 2], "bins": [["lo", "bin", [[0, 1]]], ["hi", "bin", [[2, 3]]]]}
+    cpa2 = {"name": "p1", "type": ["u", 2], "bins": [["lo", "bin", [[0, 1]]], ["hi", "array", None, [[2, 3]]]]}
+    cpb = {"name": "p2", "type": ["u", 2], "bins": [["z", "bin", [0]], ["nz", "bin", [[1, 3]]]]}
+    cpb2 = {"name": "p2", "type": ["u", 2], "bins": [["z", "bin", [0]], ["n1", "bin", [1]], ["n2", "bin", [[2, 3]]]]}
+    cpc = {"name": "p3", "type": ["u", 1], "bins": [["b", "array", None, [[0, 1]]]]}
+    for sp, ot, tag in (({"cps": [cpa, cpb]}, {"cps": [cpa2, cpb]}, "first of two"), ({"cps": [cpa, cpb]}, {"cps": [cpa, cpb2]}, "last of two"),
+                        ({"cps": [cpa, cpb, cpc]}, {"cps": [cpa, cpb2, cpc]}, "middle of three"), ({"cps": [cpa, cpb, cpc]}, {"cps": [cpa2, cpb, cpc]}, "first of three")):
+        for order in ("same_first", "other_first"):
+            items.append(dict(spec=sp, other_spec=ot, ninst=2, nsamples=1 if t == "quick" else 2, shape="shapes differ in the %s coverpoint, %s" % (tag, order), create_order=order,
+                              max_seconds=240))
     return items
 
 
